@@ -82,7 +82,11 @@ def _slice_native(body, argn):
     if _can_exit(st): break
   return out
 
-def generate(repo):
+# natives whose obligation FAILS on the pinned tree and is a listed finding (known_findings.json D27): they are generated only in the `findings`
+# variant of the unit, so that the main unit is the residual that holds; any OTHER native that fails is a violation
+FINDING_NATIVES = ['ListCollect', 'TupleCollect', 'IterZip', 'IterChain']
+
+def generate(repo, variant=None):
   root = os.path.join(repo, 'laythe_lib', 'src')
   items, notes = [], []
   files = []
@@ -104,6 +108,7 @@ def generate(repo):
       if mm: decls.append((m.group(1), mm.group(1))); seen.add(m.group(1))
       else: notes.append('%s: %s skipped (no signature constant found for a hand-declared native)' % (rel, m.group(1)))
     for st, mname in decls:
+      if (variant == 'findings') != (st in FINDING_NATIVES): continue
       md = metas.get(mname)
       mb = re.search(r'impl LyNative for %s \{\s*fn call\(&self,\s*(\w+): &mut Hooks,\s*(\w+): &\[Value\]\) -> Call \{' % st, body)
       if md is None or mb is None:
